@@ -125,8 +125,8 @@ Fixpoint walk (start n : N) (ids : list ident) (s : secrets) (h : list (ident * 
       end
   end.
 
-(* [check]: case = (seq start n (UB..) (UO..) OBS0 STEP...) *)
-Definition check (t : term) : term :=
+(* [check_seq] (dispatched by PartPersistSpec.check): case = (seq start n (UB..) (UO..) OBS0 STEP...) *)
+Definition check_seq (t : term) : term :=
   match t with
   | TL (TS "seq" :: tstart :: tn_ :: tub :: tuo :: o0 :: tsteps) =>
       match as_N tstart, as_N tn_, as_N_list tub, as_N_list tuo, map_opt parse_step tsteps, parse_obs o0 with
